@@ -39,6 +39,7 @@ ENV["RUSTFLAGS"] = (ENV.get("RUSTFLAGS", "") + " --cfg kira_verif").strip()
 KANI_BASE = ["cargo", "kani", "--no-default-features", "--lib", "-Z", "unstable-options", "-Z", "stubbing"] + os.environ.get("KV_EXTRA_KANI_ARGS", "").split()
 
 DEFAULT_TIMEOUT = {"quick": 600, "thorough": 1800}
+E2_PROPS = {"C17"}  # properties with a MIR -> SMT task (kv/mirsmt.py)
 MEM_LIMIT_KB = int(os.environ.get("KV_MEM_KB", str(14 * 1024 * 1024)))
 
 
@@ -564,6 +565,27 @@ def main(argv):
             else:
                 inconclusive.append("%s: failed in the encoding but the counterexample does not replay natively (%s): %s"
                                     % (h.name, rep["reason"], desc))
+        # ---- engine E2 (MIR -> SMT) for the float kernels Kani cannot be trusted with --------------------------
+        e2 = None
+        if prop in E2_PROPS and only is None:
+            e2dir = os.path.join(scratch, "e2")
+            e2json = os.path.join(e2dir, "report.json")
+            os.makedirs(e2dir, exist_ok=True)
+            e2log = os.path.join(logdir, "e2.log")
+            rc_e2, to = run([sys.executable, os.path.join(VERIF, "kv", "mirsmt.py"), e2dir, "--json", e2json], VERIF, e2log, 2400)
+            print(open(e2log, errors="replace").read().rstrip(), flush=True)
+            try:
+                e2 = json.load(open(e2json))
+            except Exception:
+                e2 = {"queries": [], "violations": [], "inconclusive": ["E2 produced no report (timeout=%s, rc=%s)" % (to, rc_e2)]}
+            for v in e2.get("violations", []):
+                rp = os.path.join(REPLAY_DIR, "%s_E2_lfo_update.json" % prop)
+                json.dump({"property": prop, "engine": "E2 mirsmt", "function": e2.get("function"), "violated_claim": v["claim"], "model_inputs": v.get("model"),
+                           "replay": "kv/mirsmt.py replays the model natively (generated #[cfg(test)] module kv_e2_replay in the scratch copy of src/modulator/lfo.rs); it reproduced"},
+                          open(rp, "w"), indent=1, default=str)
+                violations.append((Harness("kv/mirsmt.py", "E2:lfo_update", {"prop": prop}, [], [], [], None, []), v["claim"], rp))
+            for s_ in e2.get("inconclusive", []):
+                inconclusive.append("E2: " + s_)
         for l in known_lines:
             print(l)
         for h, desc, rp in violations:
@@ -572,7 +594,7 @@ def main(argv):
         for s in inconclusive:
             print("INCONCLUSIVE property=%s %s" % (prop, s))
         wall = time.time() - t_start
-        write_evidence(prop, tier, seed, sel, results, wall, len(violations), known_lines, build_s, inconclusive)
+        write_evidence(prop, tier, seed, sel, results, wall, len(violations), known_lines, build_s, inconclusive, e2=e2)
         if violations:
             rc_final = 1
         elif inconclusive:
@@ -590,7 +612,7 @@ def main(argv):
             print("scratch kept at", scratch)
 
 
-def write_evidence(prop, tier, seed, sel, results, wall, nviol, known_lines, build_s, inconclusive=()):
+def write_evidence(prop, tier, seed, sel, results, wall, nviol, known_lines, build_s, inconclusive=(), e2=None):
     os.makedirs(EVIDENCE_DIR, exist_ok=True)
     hs = []
     evaluations = 0
@@ -627,6 +649,16 @@ def write_evidence(prop, tier, seed, sel, results, wall, nviol, known_lines, bui
                             "asserted": sorted(set(c["description"] for c in r["checks"] if ".cover." not in c["id"] and "harness/" in c["location"]))[:12],
                             "witnesses_reached": [c["description"] for c in sat_cov][:6],
                             "result": r["class"]})
+    if e2:
+        unsat = [q for q in e2.get("queries", []) if q.get("z3") == "unsat" and q.get("cvc5") in ("unsat", None)]
+        evaluations += len(unsat)
+        queries += len(e2.get("queries", []))
+        solver_s += sum(q.get("z3_s", 0) + q.get("cvc5_s", 0) for q in e2.get("queries", []))
+        if unsat:
+            nontrivial += 1
+        samples.append({"obligation": "E2 (MIR -> SMT): " + str(e2.get("function")), "queries": [{k: q.get(k) for k in ("claim", "z3", "cvc5", "z3_s")} for q in e2.get("queries", [])],
+                        "translation_validation_vectors_agreeing": len([t for t in e2.get("translation_validation", []) if t.get("agree")]),
+                        "structural": e2.get("structural")})
     ev = {
         "property_id": prop, "tier": tier, "seed": seed, "level": "model_checking",
         "coverage": {
@@ -651,6 +683,7 @@ def write_evidence(prop, tier, seed, sel, results, wall, nviol, known_lines, bui
             "harnesses": hs,
             "known_findings_reported": list(known_lines),
             "inconclusive": list(inconclusive),
+            "e2": e2,
         },
         "assumptions": [
             "Kani/CBMC model of Rust semantics and IEEE-754 arithmetic (float % and libm calls are NOT trusted: see the gate harnesses and contract stubs)",
